@@ -1,5 +1,7 @@
 package safehtml
 
+import "fmt"
+
 // C16: CSSRule yields exactly one rule: selectors cannot inject blocks, rules or markup.
 
 func refHasUnquotedURL(sel string) bool {
@@ -68,4 +70,10 @@ func vProbe_C16_scan(a []string) string {
 		}
 	}
 	return string(b)
+}
+
+// translator validation for the engine's model of fmt.Sprintf with a non-constant format
+// (reached only when a change makes untrusted text part of a format string)
+func vProbe_C16_fmt(args []string) string {
+	return fmt.Sprintf(args[0], args[1]) + "|" + fmt.Sprintf(args[0]) + "|" + fmt.Sprintf(args[0], args[1], args[2])
 }
